@@ -5,6 +5,7 @@ from .lib.linear import Lin, lin
 
 SELECT = (r'^bluetoe::server::(advertising_data_impl|scan_response_data_impl|advertising_data|scan_response_data)$|^bluetoe::details::copy_name::impl$|^bluetoe::details::uuid_128_writer::each$'
           r'|^bluetoe::(list_of_16_bit_service_uuids|list_of_128_bit_service_uuids|peripheral_connection_interval_range|advertise_appearance)::advertising_data$'
+          r'|^bluetoe::(custom_advertising_data|custom_scan_response_data|runtime_custom_advertising_data|runtime_custom_scan_response_data)::(advertising_data|scan_response_data)$'
           r'|^bluetoe::link_layer::.*(fill_advertising_data|fill_scan_response_data|fill_l2cap_advertising_data|fill_l2cap_scan_response_data)$')
 UNITS = lambda u: u in ('w_inst_att', 'w_inst_ll') or u.startswith('t_server') or u.startswith('t_advertising')
 META = {
@@ -216,6 +217,28 @@ def check_writer(chk, fn, label, expect_len=True):
 
 
 def run(chk, facts, tier):
+    chk.rule('custom-data-copy-bounded', 'the four custom advertising / scan response data holders copy min(stored size, buffer_size) octets to the given buffer and return exactly that number', floor=4)
+    for fn in facts.functions:
+        if fn.kind not in ('pattern', 'plain') or not (fn.file or '').endswith('custom_advertising.hpp') or fn.name not in ('advertising_data', 'scan_response_data') or len(fn.params) != 2:
+            continue
+        dst, cap = fn.params[0]['n'], fn.params[1]['n']
+        cps = [c for c in fn.body.calls('copy') if len(c.args()) == 3 and is_name(c.args()[2], dst)]
+        rets = fn.returns()
+        ok, why = len(cps) == 1 and len(rets) == 1, 'expected one copy into the buffer and one return'
+        if ok:
+            e0, e1 = elem_addr(cps[0].args()[0]), elem_addr(cps[0].args()[1])
+            if e0 is not None and e1 is not None and cval(e0[1]) == 0 and same_expr(cps[0].args()[0], e1[0]):
+                e1 = (e0[0], e1[1])                      # `first + n` with first = &data[ 0 ] (the loaded form of copy_n)
+            ok = e0 is not None and e1 is not None and same_expr(e0[0], e1[0]) and cval(e0[1]) == 0
+            why = 'the copy does not start at the first stored octet'
+            if ok:
+                ln = e1[1]
+                m = deep(ln) if not isinstance(ln, int) else None
+                ok = m is not None and m.is_call('min') and any(is_name(a, cap) for a in m.args())
+                why = 'the number of octets copied is not min(stored size, %s): the caller\'s buffer is overrun' % cap
+                if ok and not same_expr(ret_value(rets[0]), ln):
+                    ok, why = False, 'the returned size (%s) is not the number of octets copied: the caller transmits octets nobody wrote (or cuts the data)' % ret_value(rets[0]).text()[:40]
+        chk.instance('custom-data-copy-bounded', fn, '%s::%s copies and returns min(size, %s)' % (fn.cls.split('::')[-1], fn.name, cap), ok, '' if ok else why, key=fn.cls.split('::')[-1])
     chk.rule('bounded-and-tiling', 'each AD writer: every write below a dominating remaining-size bound / clamp; length byte + 1 == pointer advance on every path', floor=6)
     chk.rule('complete-or-shortened-marker', 'name and service lists: the AD type is the "complete" one exactly when the clamped count equals the full count', floor=3)
     chk.rule('uuid128-writer-guarded', 'uuid_128_writer::each copies a UUID only under begin + sizeof(UUID) <= end and advances by that size', floor=1)
